@@ -14,7 +14,7 @@ def matchTok (k : Fns.TokenKind) : Rs.Eff := ⟨"self.match_token", [.s (Fns.Tok
 
 /-- `emit_return`: a constructor returns its receiver (slot 0), anything else nil; inside a try block the pending finally blocks run first. -/
 def emitReturnSkeleton (kind : Fns.FunctionKind) (inTry : Bool) : List Rs.Eff :=
-  [if kind = .Initialiser then (⟨"self.emit_bytes", [.s "[OpCode::GetLocal as u8,0]"]⟩ : Rs.Eff) else emitOp .Nil]
+  [if kind = .Initialiser then (⟨"self.emit_bytes", [opByte .GetLocal, .s "0"]⟩ : Rs.Eff) else emitOp .Nil]
     ++ (if inTry then [emitOp .JumpFinally] else []) ++ [emitOp .Return]
 
 def throwSkeleton : List Rs.Eff := [call0 "self.expression", consume .SemiColon "Expected ';' after throw value.", emitOp .Throw]
@@ -33,7 +33,7 @@ def storeInTry (b : Bool) : Rs.Eff := ⟨"store self.compiler().in_try_block", [
 
 /-- What an accepted try statement does (a catch clause needs its variable name; at least one clause must be present). -/
 def trySkeleton (inTryBefore : Bool) (posArgs posAfterArgs jumpPos catchStart : Int) (haveCatch haveFinally : Bool) : List Rs.Eff :=
-  [storeInTry true, emitOp .PushExcHandler, ⟨"self.emit_bytes", [.s "[0xff,0xff]"]⟩, ⟨"self.emit_bytes", [.s "[0xff,0xff]"]⟩,
+  [storeInTry true, emitOp .PushExcHandler, ⟨"self.emit_bytes", [.s "0xff", .s "0xff"]⟩, ⟨"self.emit_bytes", [.s "0xff", .s "0xff"]⟩,
    consume .LeftBrace "Expected '{' after 'try'.", call0 "self.begin_scope", call0 "self.block", call0 "self.end_scope",
    storeInTry inTryBefore, emitOp .PopExcHandler, ⟨"self.emit_jump", [.s (Fns.OpCode.name .Jump)]⟩, ⟨"self.patch_offset_at", [.i posArgs, .i posAfterArgs]⟩,
    matchTok .Catch]
@@ -87,5 +87,77 @@ def ifSkeleton (thenJump elseJump : Int) (haveElse startsOk : Bool) : List Rs.Ef
             ++ [call0 "self.statement"]
         else [])
     ++ [patchJump elseJump]
+
+/-! ## Expressions -/
+
+def parsePrec (p : Fns.Precedence) : Rs.Eff := ⟨"self.parse_precedence", [.s (Fns.Precedence.name p)]⟩
+def emitOps (os : List Fns.OpCode) : Rs.Eff :=
+  match os with
+  | [o] => emitOp o
+  | _ => ⟨"self.emit_bytes", os.map opByte⟩
+
+/-- The binary operators of the language: token, the level of the operator, the level its RIGHT operand is parsed at (one tighter:
+left-associative), what is emitted after both operands. `!=`, `>=`, `<=` are the negations of `==`, `<`, `>`. -/
+def binaryTable : List (Fns.TokenKind × Fns.Precedence × Fns.Precedence × List Fns.OpCode) :=
+  [ (.BangEqual, .Equality, .Comparison, [.Equal, .LogicalNot]), (.EqualEqual, .Equality, .Comparison, [.Equal]),
+    (.Greater, .Comparison, .BitwiseOr, [.Greater]), (.GreaterEqual, .Comparison, .BitwiseOr, [.Less, .LogicalNot]),
+    (.Less, .Comparison, .BitwiseOr, [.Less]), (.LessEqual, .Comparison, .BitwiseOr, [.Greater, .LogicalNot]),
+    (.Bar, .BitwiseOr, .BitwiseXor, [.BitwiseOr]), (.Caret, .BitwiseXor, .BitwiseAnd, [.BitwiseXor]), (.Amp, .BitwiseAnd, .BitShift, [.BitwiseAnd]),
+    (.LessLess, .BitShift, .Term, [.BitShiftLeft]), (.GreaterGreater, .BitShift, .Term, [.BitShiftRight]),
+    (.Plus, .Term, .Factor, [.Add]), (.Minus, .Term, .Factor, [.Subtract]),
+    (.Star, .Factor, .Range, [.Multiply]), (.Slash, .Factor, .Range, [.Divide]), (.Percent, .Factor, .Range, [.Modulo]) ]
+
+def binarySkeleton (right : Fns.Precedence) (ops : List Fns.OpCode) : List Rs.Eff := [parsePrec right, emitOps ops]
+
+/-- prefix operators: the operand is parsed at Unary level (so `-a.b`, `-f(x)` apply to the whole postfix expression and `- -a` nests) -/
+def unaryTable : List (Fns.TokenKind × Fns.OpCode) := [(.Minus, .Negate), (.Bang, .LogicalNot), (.Tilde, .BitwiseNot)]
+def unarySkeleton (o : Fns.OpCode) : List Rs.Eff := [parsePrec .Unary, emitOp o]
+
+/-- `a and b`: if a is falsy jump over b keeping a as the value; otherwise pop a, the value is b. -/
+def andSkeleton (endJump : Int) : List Rs.Eff := [emitJump .JumpIfFalse, emitOp .Pop, parsePrec .And, patchJump endJump]
+/-- `a or b`: if a is falsy fall into (pop a; b); otherwise jump over it keeping a. -/
+def orSkeleton (elseJump endJump : Int) : List Rs.Eff :=
+  [emitJump .JumpIfFalse, emitJump .Jump, patchJump elseJump, emitOp .Pop, parsePrec .Or, patchJump endJump]
+def dotdotSkeleton : List Rs.Eff := [parsePrec .Unary, emitOp .BuildRange]
+
+/-! ## Declarations, scopes, `for` -/
+
+def storeDepth (d : Int) : Rs.Eff := ⟨"store self.compiler().scope_depth", [.i d]⟩
+
+/-- `var x = e;` / `var x;` (nil): the initialiser is compiled BEFORE the variable is defined (so it cannot see itself). -/
+def varDeclSkeleton (global : BitVec 16) (hasInit : Bool) : List Rs.Eff :=
+  [call0 "self.check_no_attributes", ⟨"self.parse_variable", [.s "Expected variable name."]⟩, matchTok .Equal]
+    ++ (if hasInit then [call0 "self.expression"] else [emitOp .Nil])
+    ++ [consume .SemiColon "Expected ';' after variable declaration.", ⟨"self.define_variable", [.n global.toNat]⟩]
+
+/-- an expression statement discards its value -/
+def exprStmtSkeleton : List Rs.Eff := [call0 "self.expression", consume .SemiColon "Expected ';' after expression.", emitOp .Pop]
+
+/-- leaving a scope: the depth goes down first, then the locals deeper than it are discarded -/
+def endScopeSkeleton (depth : Int) : List Rs.Eff := [storeDepth (depth - 1), ⟨"self.emit_scope_end", [.b true, .i (depth - 1)]⟩]
+
+/-- inside a scope a definition only marks the local initialised; at top level it emits DefineGlobal with the name constant -/
+def defineVarSkeleton (depth : Int) : List Rs.Eff :=
+  if depth > 0 then [call0 "self.mark_initialised"]
+  else [emitOp .DefineGlobal, ⟨"self.emit_bytes", [.s "global.to_ne_bytes()"]⟩]
+
+/-- `for v in e { body }`: an outer scope holds the loop variable (initialised to nil BEFORE the iterable is evaluated, marked usable only
+after it) and the hidden iterator (`e.iter()`, invoked with no arguments); each pass: IterNext, store into the loop variable, leave if it is
+the stop marker, pop the copy, body in its own scope, jump back to the IterNext; on exit the copy is popped too, the breaks are patched and
+the outer scope ends (discarding iterator and variable). -/
+def forSkeleton (loopVar : Int) (iterName : BitVec 16) (addOk : Bool) (loopStart exitJump : Int) (popped : Except Fns.CompilerError Unit) :
+    List Rs.Eff :=
+  [call0 "self.begin_scope", matchTok .Identifier, call0 "self.declare_variable", emitOp .Nil,
+   consume .In "Expected 'in' after loop variable.", call0 "self.expression",
+   ⟨"self.compiler().mark_initialised", [.i loopVar]⟩, ⟨"self.compiler().add_local", [.s "&Token::from_string(loop_iter_name)"]⟩]
+    ++ (if addOk then [] else [⟨"self.error", [.s "Too many variables in function."]⟩])
+    ++ [⟨"self.identifier_constant", [.s "&Token::from_string(\"iter\")"]⟩,
+        ⟨"self.emit_constant_op", [.s (Fns.OpCode.name .Invoke), .n iterName.toNat]⟩, ⟨"self.emit_byte", [.s "0"]⟩,
+        call0 "self.mark_initialised", call0 "self.compiler().push_loop", call0 "self.compiler().current_loop_header",
+        emitOp .IterNext, ⟨"self.emit_bytes", [opByte .SetLocal, .n (Rs.bvOfInt 8 loopVar).toNat]⟩, emitJump .JumpIfStopIter, emitOp .Pop,
+        consume .LeftBrace "Expected '{' after loop expression.", call0 "self.begin_scope", call0 "self.block", call0 "self.end_scope",
+        ⟨"self.emit_loop", [.i loopStart]⟩, patchJump exitJump, emitOp .Pop, call0 "self.compiler().pop_loop"]
+    ++ (match popped with | .ok _ => [] | .error e => [reportErr e])
+    ++ [call0 "self.end_scope"]
 
 end Yarel.StmtSkeleton
